@@ -244,6 +244,9 @@ func check(args []string) int {
 			if !hasProp(ct.Props, *prop) || (*fn != "" && !strings.Contains(key, *fn)) {
 				continue
 			}
+			if ct.InlineOnly {
+				continue
+			}
 			if ct.Trusted != "" {
 				eng.Assumptions["trusted contract (body not verified): "+key+" -- "+ct.Trusted] = true
 				continue
